@@ -2,6 +2,8 @@
    Property theorems only.  Model: Model/Segmenter.v (tied to segmenter/*.go by the correspondence check);
    specifications: Spec/UAX29.v, Spec/UAX14.v. *)
 From TV Require Import Model.Segmenter Spec.UAX29 Spec.UAX14 Proofs.SegCommon Proofs.SegG Proofs.SegL Proofs.SegW Proofs.SegIter.
+(* table theorems (second half of this file): the observation of a rune computed from the regenerated tables *)
+From TV Require Import Model.ObsOfRune Spec.Unicode Proofs.ObsTables.
 Open Scope Z_scope.
 
 (* Init is total: for every rune string the attribute computation neither panics (the write-back index of
@@ -75,3 +77,79 @@ Example line_example :
   forallb obs_wf_l t = true
   /\ lb_spec t = [Prohibited; Prohibited; Prohibited; Allowed; Prohibited; Prohibited; Mandatory; Mandatory].
 Proof. repeat split; reflexivity. Qed.
+
+
+(* ================================================================================================================ *)
+(* TABLE THEOREMS.  The hypotheses obs_wf_g / obs_wf_l / obs_wf_w above are facts about the library's Unicode tables.
+   `obs_of_rune` (Model/ObsOfRune.v) computes the observation of a rune from the tables REGENERATED on every run
+   (Gen/UnicodeTables.v) through the lookup models of C20, as the Go driver computes it from the library (tied by the
+   correspondence check on every rune of every case).  `is_rune r` is -2^31 <= r < 2^31 (every Go rune, hence every code
+   point 0..0x10FFFF).  Proved by kernel computation on the RANGE tables (disjointness after sorting all ranges,
+   expanded intervals of the one-rune classes, class positions), lifted to all runes by lemmas; no enumeration of
+   code points. *)
+
+(* no lookup of the observation fails (unicode.Is' bisection never runs out of fuel): the default of obs_of_rune is never read *)
+Theorem obs_of_rune_total : forall r, is_rune r -> obs_of_rune_res r = Ok (obs_of_rune r).
+Proof. exact obs_of_rune_total_lemma. Qed.
+Print Assumptions obs_of_rune_total.
+
+(* Extended_Pictographic is disjoint from every grapheme break class; the CR and LF grapheme classes are exactly
+   U+000D and U+000A *)
+Theorem obs_of_rune_wf_g : forall r, is_rune r -> obs_wf_g (obs_of_rune r) = true.
+Proof. exact obs_of_rune_wf_g_lemma. Qed.
+Print Assumptions obs_of_rune_wf_g.
+
+(* the runes of the table BreakZWJ are exactly those whose line class is ZWJ; the line class LF is exactly U+000A *)
+Theorem obs_of_rune_wf_l : forall r, is_rune r -> obs_wf_l (obs_of_rune r) = true.
+Proof. exact obs_of_rune_wf_l_lemma. Qed.
+Print Assumptions obs_of_rune_wf_l.
+
+(* U+000D and U+000A are in the word class NewlineCRLF, U+200D in ExtendFormat *)
+Theorem obs_of_rune_wf_w : forall r, is_rune r -> obs_wf_w (obs_of_rune r) = true.
+Proof. exact obs_of_rune_wf_w_lemma. Qed.
+Print Assumptions obs_of_rune_wf_w.
+
+(* the two sentinels of the segmenter loop (cursor.r = 0 before the text, U+2029 after it) observe as the model assumes *)
+Theorem obs_of_rune_sentinels : obs_of_rune 0 = obs_nul /\ obs_of_rune 0x2029 = obs_psep.
+Proof. exact obs_of_rune_sentinels_lemma. Qed.
+Print Assumptions obs_of_rune_sentinels.
+
+(* what the flags of an observation mean: memberships (Spec/Unicode.v `mem`: linear scan with strides) in the
+   regenerated tables; BreakZWJ holds U+200D only; `unassigned` = in no general category table *)
+Theorem obs_of_rune_flags : forall r, is_rune r ->
+  o_pic (obs_of_rune r) = mem ut_Extended_Pictographic r /\
+  o_wide (obs_of_rune r) = mem ut_LargeEastAsian r /\
+  o_word (obs_of_rune r) = mem ut_Word r /\
+  o_zwjtab (obs_of_rune r) = (r =? 0x200D) /\
+  o_mnmc (obs_of_rune r) = (mem gc_Mn r || mem gc_Mc r) /\
+  (o_cn (obs_of_rune r) = true <-> forall p : nat * rtab, In p categories_order -> mem (snd p) r = false).
+Proof. exact obs_of_rune_flags_lemma. Qed.
+Print Assumptions obs_of_rune_flags.
+
+(* the segmenter theorems over RUNE strings, with no table hypothesis left *)
+Theorem grapheme_attrs_eq_spec_runes : forall runes, Forall is_rune runes ->
+  exists attrs, compute_attrs (map obs_of_rune runes) = Ok attrs /\
+                map a_grapheme attrs = gb_spec (map obs_of_rune runes).
+Proof. exact grapheme_runes_lemma. Qed.
+Print Assumptions grapheme_attrs_eq_spec_runes.
+
+Theorem word_attrs_eq_spec_runes : forall runes, Forall is_rune runes ->
+  exists attrs, compute_attrs (map obs_of_rune runes) = Ok attrs /\
+                map a_word attrs = wb_spec (map obs_of_rune runes).
+Proof. exact word_runes_lemma. Qed.
+Print Assumptions word_attrs_eq_spec_runes.
+
+Theorem line_attrs_eq_spec_runes : forall runes, Forall is_rune runes ->
+  exists attrs, compute_attrs (map obs_of_rune runes) = Ok attrs /\
+                map (fun a => (a_line a, a_mandatory a)) attrs = map flags_of (lb_spec (map obs_of_rune runes)).
+Proof. exact line_runes_lemma. Qed.
+Print Assumptions line_attrs_eq_spec_runes.
+
+(* non-vacuity: an emoji ZWJ sequence followed by CR LF, as code points *)
+Example runes_example :
+  let t := [0x1F468; 0x200D; 0x1F469; 0x0D; 0x0A; 0x61; 0x301] in
+  Forall is_rune t
+  /\ gb_spec (map obs_of_rune t) = [true; false; false; true; false; true; false; true]
+  /\ wb_spec (map obs_of_rune t) = [true; false; false; true; false; true; false; true]
+  /\ lb_spec (map obs_of_rune t) = [Prohibited; Prohibited; Prohibited; Prohibited; Prohibited; Mandatory; Prohibited; Mandatory].
+Proof. split; [repeat constructor; unfold is_rune; lia|]. vm_compute. repeat split; reflexivity. Qed.
